@@ -39,10 +39,11 @@ TRUSTED = [
     "harness/translate/loadmodel.py (Python ast -> skeleton), fail closed",
     "harness/gen/metamodel.py generator + synth_snippets, harness/impl/crashhunt.py + cli.py runner",
 ]
-RULE = ("case = (accepted meta-model, target) for the 8 targets and smoke; models: generated with the "
-        "profiles tiny/small (all generators expected to succeed), small_wild (risky features on) and "
-        "accepted mutants of generated models; non-trivial = the front end accepted the model; distinct "
-        "by (model text, target)")
+RULE = ("case = (accepted meta-model, target) for the 8 targets and smoke; models: seed-driven with the "
+        "profiles tiny/small (all generators expected to succeed); a fixed corpus of shrunk witnesses, one "
+        "per known crash site (risky features / mutants); thorough adds seed-driven small_wild/medium_wild "
+        "models and accepted mutants; non-trivial = the front end accepted the model; distinct by "
+        "(model text, target)")
 
 TARGETS = list(mmg.TARGETS) + ["smoke"]
 
@@ -69,24 +70,82 @@ def minimal_snippets(target: str) -> Dict[str, str]:
         return {}
 
 
-def streams(ctx: lib.Ctx) -> None:
+def corpus() -> List[Dict[str, Any]]:
+    """Fixed witnesses, one per known crash site: ``{"key", "text", "target", "snippets",
+    "origin"}`` (generated once under small_wild / as mutants with fixed seeds, then
+    shrunk). Replayed on every run, so a KNOWN-FINDING line is printed only while the
+    witness still crashes."""
+    path = lib.VERIF / "harness" / "corpus" / "c02_wild.json"
+    if not path.exists():
+        return []
+    return json.loads(path.read_text(encoding="utf-8"))
+
+
+def accepted_by_front_end(r: Dict[str, Any]) -> bool:
+    return not (r["exc"] is None and r["rc"] != 0 and (
+        r["stderr"].startswith("Failed to parse") or r["stderr"].startswith("Failed to read")
+        or r["stderr"].startswith("Failed to construct")
+        or r["stderr"].startswith("Failed to translate") or "unexpected imports" in r["stderr"]))
+
+
+def run_models(ctx: lib.Ctx, stream: str, models, found: Dict[str, Dict[str, Any]],
+               outcome, per_profile, nontrivial) -> int:
+    """Run every model on the 8 targets + smoke; collect failures per crash site."""
+    jobs: List[Dict[str, Any]] = []
+    index: List[Tuple[int, str]] = []
+    for i, (text, mm, _prof) in enumerate(models):
+        for job in model_jobs(text, mm):
+            jobs.append(job)
+            index.append((i, job["target"]))
+    results = c01.run_jobs(jobs, batch=18, workers=10, timeout=3000)
+    for (i, target), job, r in zip(index, jobs, results):
+        text, mm, prof = models[i]
+        kind = prof.split(":")[0]
+        key = c01.failure_key(r)
+        if r.get("timeout"):
+            outcome["timeout"] += 1
+            per_profile[kind]["timeout"] += 1
+            continue
+        if not accepted_by_front_end(r):
+            outcome["front-end-rejected"] += 1
+            per_profile[kind]["front-end-rejected"] += 1
+            continue
+        nontrivial.append((stream, lib.stable_key(text), target))
+        if key is None:
+            o = "generated" if r["rc"] == 0 else "reported"
+            outcome[o] += 1
+            per_profile[kind][o] += 1
+            continue
+        outcome["crash"] += 1
+        per_profile[kind]["crash"] += 1
+        if r["exc"] is not None and r["exc"]["in_front_end"]:
+            key = "front-end:" + key      # C01's statement; still a crash of this run
+        cur = found.get(key)
+        if cur is None:
+            found[key] = {"text": text, "ops": [prof], "exc": r["exc"], "count": 1,
+                          "raw_key": r["key"], "size": len(text), "target": target,
+                          "snippets": job["snippets"], "targets": {target}}
+        else:
+            cur["count"] += 1
+            cur["targets"].add(target)
+            if len(text) < cur["size"]:
+                cur.update(text=text, ops=[prof], exc=r["exc"], size=len(text), raw_key=r["key"],
+                           target=target, snippets=job["snippets"])
+    return len(jobs)
+
+
+def explore_models(ctx: lib.Ctx) -> Tuple[list, int]:
+    """Open-ended exploration (thorough tier only): risky-feature profile + accepted mutants."""
     rng = ctx.rng
     models: List[Tuple[str, Optional[mmg.MetaModel], str]] = []
-    # 1. conservative profiles: every generator is expected to succeed
-    for _ in range(ctx.n(3, 150)):
-        prof = rng.choice(["tiny", "small", "small"])
+    for i in range(WILD_MODELS):
+        prof = "small_wild" if i % 5 else "medium_wild"
         mm = mmg.random_metamodel(random.Random(rng.random()), prof)
         models.append((mmg.render_source(mm), mm, prof))
-    # 2. risky features on
-    for _ in range(ctx.n(6, 500)):
-        prof = "small_wild" if "small_wild" in mmg.PROFILES else "small"
-        mm = mmg.random_metamodel(random.Random(rng.random()), prof)
-        models.append((mmg.render_source(mm), mm, prof))
-    # 3. mutants: keep those the front end accepts (checked with the cheapest target)
     base = [mmg.render_source(mmg.random_metamodel(random.Random(rng.random()), "tiny"))
-            for _ in range(ctx.n(4, 60))]
+            for _ in range(12)]
     mutants = []
-    for _ in range(ctx.n(30, 4000)):
+    for _ in range(MUTANT_PROBES):
         t, ops = ch.mutate(rng, rng.choice(base), rng.choice([1, 1, 2]),
                            only=["annotation", "class_decorator", "inv_body", "pattern_string", "docstring",
                                  "constant", "class_body", "module_stmt", "const_tweak", "operator",
@@ -97,75 +156,97 @@ def streams(ctx: lib.Ctx) -> None:
             continue
         mutants.append((t, ops))
     probe = c01.run_jobs([c01.job_of(t, "smoke") for t, _ in mutants], batch=30, workers=10)
-    accepted = [(t, ops) for (t, ops), r in zip(mutants, probe)
-                if r["exc"] is None and (r["rc"] == 0 or not r["stderr"].startswith("Failed to"))
-                and "unexpected imports" not in r["stderr"]]
     seen = set()
-    for t, ops in accepted:
-        if t in seen or t in base:
+    for (t, ops), r in zip(mutants, probe):
+        ok = r["exc"] is None and accepted_by_front_end(r)
+        if not ok or t in seen or t in base:
             continue
         seen.add(t)
         models.append((t, None, "mutant:" + "+".join(ops)))
-        if len(seen) >= ctx.n(3, 400):
+        if len(seen) >= MUTANT_MODELS:
             break
+    return models, len(seen)
 
-    jobs: List[Dict[str, Any]] = []
-    index: List[Tuple[int, str]] = []
-    for i, (text, mm, _prof) in enumerate(models):
-        for job in model_jobs(text, mm):
-            jobs.append(job)
-            index.append((i, job["target"]))
-    results = c01.run_jobs(jobs, batch=18, workers=10, timeout=3000)
 
+WILD_MODELS = 80
+MUTANT_PROBES = 600
+MUTANT_MODELS = 80
+
+
+def streams(ctx: lib.Ctx) -> None:
+    rng = ctx.rng
     outcome = collections.Counter()
     per_profile = collections.defaultdict(collections.Counter)
+    nontrivial: list = []
     found: Dict[str, Dict[str, Any]] = {}
-    nontrivial = []
-    for (i, target), job, r in zip(index, jobs, results):
-        text, mm, prof = models[i]
-        kind = prof.split(":")[0]
+
+    # 1. seed-driven, conservative profiles: every generator is expected to succeed,
+    #    so any crash here is new whatever the seed
+    models: List[Tuple[str, Optional[mmg.MetaModel], str]] = []
+    for _ in range(ctx.n(7, 60)):
+        prof = rng.choice(["tiny", "small", "small"])
+        mm = mmg.random_metamodel(random.Random(rng.random()), prof)
+        models.append((mmg.render_source(mm), mm, prof))
+    n_jobs = run_models(ctx, "conservative", models, found, outcome, per_profile, nontrivial)
+
+    # 2. fixed corpus: one shrunk witness per known crash site (risky features, mutants)
+    entries = corpus()
+    cjobs = []
+    for e in entries:
+        job = c01.job_of(e["text"], e["target"], e.get("snippets") or {})
+        job["files"] = "none"
+        cjobs.append(job)
+    cres = c01.run_jobs(cjobs, batch=12, workers=10, timeout=3000)
+    still, gone, moved = 0, [], []
+    for e, job, r in zip(entries, cjobs, cres):
         key = c01.failure_key(r)
-        front_end_rejected = r["exc"] is None and r["rc"] != 0 and (
-            r["stderr"].startswith("Failed to parse") or r["stderr"].startswith("Failed to construct")
-            or r["stderr"].startswith("Failed to translate") or "unexpected imports" in r["stderr"])
-        if front_end_rejected:
-            outcome["front-end-rejected"] += 1
-            per_profile[kind]["front-end-rejected"] += 1
-            continue
-        nontrivial.append((lib.stable_key(text), target))
         if key is None:
-            o = "generated" if r["rc"] == 0 else "reported"
-            outcome[o] += 1
-            per_profile[kind][o] += 1
+            gone.append(e["key"])
+            outcome["corpus:no-longer-crashes"] += 1
             continue
-        outcome["crash"] += 1
-        per_profile[kind]["crash"] += 1
         if r["exc"] is not None and r["exc"]["in_front_end"]:
-            key = "front-end:" + key      # C01's statement; still a crash of this run
-        # one key per crash site (not per target): the same defect in shared code shows
-        # up for several targets
-        site_key = key
-        cur = found.get(site_key)
-        if cur is None:
-            found[site_key] = {"text": text, "ops": [prof], "exc": r["exc"], "count": 1,
-                               "raw_key": r["key"], "size": len(text), "target": target,
-                               "snippets": job["snippets"], "targets": {target}}
+            key = "front-end:" + key
+        if key == e["key"]:
+            still += 1
         else:
-            cur["count"] += 1
-            cur["targets"].add(target)
-            if len(text) < cur["size"]:
-                cur.update(text=text, ops=[prof], exc=r["exc"], size=len(text), raw_key=r["key"],
-                           target=target, snippets=job["snippets"])
-    known = {k["key"] for k in lib.load_known_findings() if k["kind"] == "finding" and k["property"] == "C02"}
+            moved.append((e["key"], key))
+        outcome["corpus:crash"] += 1
+        nontrivial.append(("corpus", e["key"], e["target"]))
+        if key not in found:
+            found[key] = {"text": e["text"], "ops": ["corpus:" + e.get("origin", "")], "exc": r["exc"],
+                          "count": 1, "raw_key": r["key"], "size": len(e["text"]),
+                          "target": e["target"], "snippets": job["snippets"], "targets": {e["target"]}}
+        else:
+            found[key]["count"] += 1
+            found[key]["targets"].add(e["target"])
+    n_jobs += len(cjobs)
+
+    # 3. thorough only: open-ended exploration
+    n_models = len(models)
+    accepted_mutants = 0
+    if ctx.thorough:
+        more, accepted_mutants = explore_models(ctx)
+        n_models += len(more)
+        n_jobs += run_models(ctx, "explore", more, found, outcome, per_profile, nontrivial)
+
+    known = {k["key"] for k in lib.load_known_findings() if k["property"] == "C02"}
     new = {k: v for k, v in found.items() if k not in known}
     c01.shrink_failures(new)
     for v in found.values():
         v["ops"] = v["ops"] + ["targets=" + ",".join(sorted(v.pop("targets")))]
+    # every new witness of this run (the driver writes at most five replays): input for
+    # extending harness/corpus/c02_wild.json
+    ctx.work.mkdir(parents=True, exist_ok=True)
+    (ctx.work / "new_witnesses.json").write_text(json.dumps([
+        {"key": k, "text": v["text"], "target": v["target"], "snippets": v.get("snippets") or {},
+         "origin": ",".join(v["ops"]), "message": ((v.get("exc") or {}).get("message") or "")[:300]}
+        for k, v in new.items() if isinstance(v["text"], str)], indent=0))
     c01.report(ctx, "generators", found)
-    ctx.count("generators", len(jobs), nontrivial_keys=nontrivial, validated=len(jobs),
-              models=len(models), outcomes=dict(outcome),
-              per_profile={k: dict(v) for k, v in per_profile.items()},
-              accepted_mutants=len(seen), distinct_failure_keys=sorted(found))
+    ctx.count("generators", n_jobs, nontrivial_keys=nontrivial, validated=n_jobs,
+              models=n_models, corpus_witnesses=len(entries), corpus_still_crashing=still,
+              corpus_no_longer_crashing=gone, corpus_key_changed=moved,
+              outcomes=dict(outcome), per_profile={k: dict(v) for k, v in per_profile.items()},
+              accepted_mutants=accepted_mutants, distinct_failure_keys=sorted(found))
     for text, mm, prof in models[:2]:
         ctx.sample({"profile": prof, "text_head": text[:300]})
     ctx.coverage["exhaustive"] = False
